@@ -92,6 +92,21 @@ def profile(rng, lo=2, hi=24, cache=None, ov_prob=0.3):
 def mesh(rng, lo=3, hi=6, holes=True, status="none"):
     """jittered lattice, each cell split along a random diagonal; optional holes / isolated
     nodes / random vertex order inside triangles"""
+    if rng.random() < 0.15:
+        # fan: one hub joined to K rim nodes - node degrees around and above the mesh type's
+        # compile-time maximum number of neighbours (20 by default)
+        import math
+        K = rng.choice([8, 17, 19, 20, 21, 22, 26])
+        pts = [(0.0, 0.0)] + [(math.cos(2 * math.pi * k / K) * (1 + 0.1 * (k % 3)), math.sin(2 * math.pi * k / K) * (1 + 0.1 * (k % 3))) for k in range(K)]
+        tris = [(0, k + 1, (k + 1) % K + 1) for k in range(K)]
+        if rng.random() < 0.5:
+            tris = [(t[0], t[2], t[1]) for t in tris]
+        st = None
+        if status == "map":
+            st = {1: "v"}
+        elif status == "arr":
+            st = ["c"] + ["v"] * K
+        return Grid("mesh", pts=pts, tris=tris, status=st, fan=True)
     nx, ny = rng.randint(lo, hi), rng.randint(lo, hi)
     jit = rng.choice([0.0, 0.2, 0.35])
     sy = rng.choice([1.0, 1.0, 0.5, 1.7])
@@ -145,6 +160,10 @@ ELEV_FAMILIES = ["random", "ints", "ints2", "zero", "negative", "plane", "cones"
 def elevation(rng, g, family=None):
     n = g.n
     fam = family or rng.choice(ELEV_FAMILIES)
+    if getattr(g, "fan", False) and rng.random() < 0.6:
+        # hub of a fan mesh lowest (every rim node is its donor) or highest (every rim node a receiver)
+        hub = rng.choice([0.0, 10.0])
+        return [hub] + [1.0 + 0.01 * k for k in range(n - 1)]
     if fam == "random":
         z = [rng.random() for _ in range(n)]
     elif fam == "ints":
